@@ -247,6 +247,34 @@ pub struct Verdict {
 }
 
 /// Run the Byzantine prover with one fault and hand whatever comes back to the real verifier.
+/// Outcome of running the honest prover on another input assignment (the reference evaluator decides satisfiability).
+pub enum InputVerdict {
+    Skip,
+    /// the reference evaluator rejects the assignment for a reason no witness can repair
+    Unsat { msg: String, accepted: bool, sat: String },
+    /// the reference evaluator accepts the assignment; `differs` = the accepted proof carries other public inputs
+    Sat { differs: bool, accepted: bool },
+}
+
+pub fn run_input_fault<C: GenericConfig<D, F = F>>(built: &Built<C>, ctx: &SatCtx, st: &Statement, sched: &Sched, entropy: &Entropy, i: usize, nv: u64) -> InputVerdict {
+    if i >= st.prog.inputs.len() || st.prog.inputs[i] == Val::F(nv) || !matches!(st.prog.inputs[i], Val::F(_)) {
+        return InputVerdict::Skip;
+    }
+    let mut st2 = st.clone();
+    st2.prog.inputs[i] = Val::F(nv);
+    let reference = st2.prog.expected_public(&st2.prog.inputs);
+    let v = match run_fault(built, ctx, &st2, sched, entropy, &PFault::default()) {
+        Some(v) => v,
+        None => return InputVerdict::Skip,
+    };
+    const UNSAT: [&str; 7] = ["range_check fails", "split_le: value too wide", "low_bits: value too wide", "split_low_high: value too wide", "split_le_base: value too wide", "exp: exponent too wide", "lookup: input not in table"];
+    match reference {
+        Err(EvalError::Precondition(m)) if UNSAT.contains(&m.as_str()) => InputVerdict::Unsat { msg: m, accepted: v.accepted, sat: format!("{:?}", v.sat) },
+        Ok(exp) => InputVerdict::Sat { differs: v.pis != exp, accepted: v.accepted },
+        _ => InputVerdict::Skip,
+    }
+}
+
 pub fn run_fault<C: GenericConfig<D, F = F>>(built: &Built<C>, ctx: &SatCtx, st: &Statement, sched: &Sched, entropy: &Entropy, f: &PFault) -> Option<Verdict> {
     let data = &built.data;
     entropy.arm();
@@ -463,34 +491,24 @@ fn exec_c<C: GenericConfig<D, F = F>>(case: &Case, rep: &mut Report) {
 
     for f in &plan {
         if let Some((i, nv)) = f.input {
-            // the reference evaluator decides whether the new assignment satisfies the program
-            if i >= case.st.prog.inputs.len() || case.st.prog.inputs[i] == Val::F(nv) {
-                continue;
-            }
-            let mut st2 = case.st.clone();
-            st2.prog.inputs[i] = Val::F(nv);
-            let reference = st2.prog.expected_public(&st2.prog.inputs);
-            let v = match run_fault(&built, &ctx, &st2, &case.sched, &case.entropy, &PFault::default()) {
-                Some(v) => v,
-                None => continue,
-            };
-            rep.fault("input");
-            const UNSAT: [&str; 7] = ["range_check fails", "split_le: value too wide", "low_bits: value too wide", "split_low_high: value too wide", "split_le_base: value too wide", "exp: exponent too wide", "lookup: input not in table"];
-            match &reference {
-                Err(EvalError::Precondition(m)) if UNSAT.contains(&m.as_str()) => {
-                    rep.case(base_sig ^ hash_value(&serde_json::to_value(f).unwrap()), true);
+            let sig = base_sig ^ hash_value(&serde_json::to_value(f).unwrap());
+            match run_input_fault::<C>(&built, &ctx, &case.st, &case.sched, &case.entropy, i, nv) {
+                InputVerdict::Skip => {}
+                InputVerdict::Unsat { msg, accepted, sat } => {
+                    rep.fault("input");
+                    rep.case(sig, true);
                     rep.probe("c02.input_assignment_the_reference_rejects");
-                    if v.accepted {
-                        viol(rep, case, f, "accepted_proof_for_inputs_the_reference_rejects", "oracle_b", format!("input {i} := {nv}: the reference evaluator says '{m}', the statement checker says {:?}", v.sat));
+                    if accepted {
+                        viol(rep, case, f, "accepted_proof_for_inputs_the_reference_rejects", "oracle_b", format!("input {i} := {nv}: the reference evaluator says '{msg}', the statement checker says {sat}"));
                     }
                 }
-                Ok(exp) => {
-                    rep.case(base_sig ^ hash_value(&serde_json::to_value(f).unwrap()), false);
-                    if v.accepted && &v.pis != exp {
+                InputVerdict::Sat { differs, accepted } => {
+                    rep.fault("input");
+                    rep.case(sig, false);
+                    if accepted && differs {
                         viol(rep, case, f, "accepted_public_inputs_differ_from_reference", "oracle_b", format!("input {i} := {nv}"));
                     }
                 }
-                _ => rep.case(base_sig ^ hash_value(&serde_json::to_value(f).unwrap()), false),
             }
             continue;
         }
